@@ -13,7 +13,10 @@ VERIF = os.path.dirname(os.path.dirname(os.path.abspath(__file__)))
 REPO = os.environ.get("VERIF_REPO", "/repo")
 LEAN = os.path.join(VERIF, "lean")
 HARNESS_DIR = os.path.join(VERIF, "harness")
-TARGET = os.path.join(VERIF, ".cache", "target")
+# VERIF_REPO / VERIF_CACHE: used only by tools/try_mutant.sh, to run the checks against a scratch copy of the repository
+# (a seeded change) with its own build directories; the registered commands leave both unset
+CACHE = os.environ.get("VERIF_CACHE", os.path.join(VERIF, ".cache"))
+TARGET = os.path.join(CACHE, "target")
 HARNESS_BIN = os.path.join(TARGET, "debug", "penne-verif-harness")
 MODEL_BIN = os.path.join(LEAN, ".lake", "build", "bin", "penne-model")
 NCPU = os.cpu_count() or 4
@@ -49,7 +52,8 @@ def build_harness():
         import shutil
         shutil.copy(os.path.join(REPO, "Cargo.lock"), lock)
     p = subprocess.run(
-        ["cargo", "build", "--offline", "--bin", "penne-verif-harness"],
+        ["cargo", "build", "--offline", "--bin", "penne-verif-harness"]
+        + (["--config", 'paths=["%s"]' % REPO] if REPO != "/repo" else []),
         cwd=HARNESS_DIR, env=env_for_cargo(), stdout=subprocess.PIPE, stderr=subprocess.STDOUT, text=True)
     if p.returncode != 0:
         raise BuildError("harness build failed:\n" + p.stdout[-4000:])
@@ -59,7 +63,7 @@ def build_harness():
 def build_penne_bin():
     """the real `penne` binary (alpha) from the current tree, for C18."""
     env = env_for_cargo()
-    env["CARGO_TARGET_DIR"] = os.path.join(VERIF, ".cache", "target-bin")
+    env["CARGO_TARGET_DIR"] = os.path.join(CACHE, "target-bin")
     env["RUSTFLAGS"] = ""
     p = subprocess.run(
         ["cargo", "build", "--offline", "--features", "alpha,llvm-sys", "--bin", "penne"],
@@ -454,8 +458,9 @@ class Reporter:
             return False
         if any(k == key for (k, _p, _n) in self.violations):
             return False
-        os.makedirs(os.path.join(VERIF, "replays"), exist_ok=True)
-        path = os.path.join(VERIF, "replays", "%s-%d-%d.json" % (self.prop, self.seed, len(self.violations)))
+        rdir = os.environ.get("VERIF_REPLAYS", os.path.join(VERIF, "replays"))
+        os.makedirs(rdir, exist_ok=True)
+        path = os.path.join(rdir, "%s-%d-%d.json" % (self.prop, self.seed, len(self.violations)))
         replay = dict(replay)
         replay["property"] = self.prop
         replay["key"] = key
